@@ -48,10 +48,15 @@ enum OpType : uint8_t {
 	OP_SUCCEED, OP_FAIL,  // external succeed(state) / fail(state)
 	OP_PLAN_APPEND,	 // external plan(region).append: r[0]={kind, origin}, r[1]={0,dest}, arg=region
 	OP_PLAN_CLEAR,	 // arg=region
+	// capacity alphabets (C11)
+	OP_BURST,		 // queue n requests of kind r[0].kind to destinations r[0].state, +1, ... (cyclic), then update()
+	OP_FLOOD_UPDATE, // update() in which every active state requests a transition
+	OP_PLAN_FLOOD,	 // append n tasks to the plan of region arg
+	OP_REPLAY_FLOOD, // replayTransitions() with a list of n transitions
 	OP_COUNT
 };
 static const char* const OP_NAMES[] = {"construct", "enter", "exit", "update", "react", "query", "immediate", "batch", "reset",
-									   "succeed", "fail", "planAppend", "planClear"};
+									   "succeed", "fail", "planAppend", "planClear", "burst", "floodUpdate", "planFlood", "replayFlood"};
 
 struct Req { int8_t kind; int16_t state; };
 struct Op {
@@ -69,6 +74,9 @@ struct Op {
 		} else if (type == OP_SUCCEED || type == OP_FAIL) s += "(" + str(arg) + ")";
 		else if (type == OP_PLAN_APPEND) s += "(region " + str(arg) + ": " + KIND_NAMES[r[0].kind] + " " + str(r[0].state) + "->" + str(r[1].state) + ")";
 		else if (type == OP_PLAN_CLEAR) s += "(region " + str(arg) + ")";
+		else if (type == OP_BURST) s = "burst[" + str((int) n) + " x " + KIND_NAMES[r[0].kind] + " from S" + str(r[0].state) + "];update";
+		else if (type == OP_PLAN_FLOOD) s += "(region " + str(arg) + ", " + str((int) n) + " tasks)";
+		else if (type == OP_REPLAY_FLOOD) s += "(" + str((int) n) + " transitions)";
 		return s;
 	}
 };
@@ -182,6 +190,7 @@ struct Engine {
 		std::vector<Action> menuFull, menuEvent, menuGuard, menuGuardInitial, menuLife, menuPlanResult;
 		int redFull = 0, redEvent = 0, redGuard = 0, redGuardInitial = 0, redLife = 0, redPlanResult = 0;
 		bool inInitial = false;	 // inside the very first activation (no cancel allowed there)
+		bool flood = false;		 // every update() callback requests a transition (capacity alphabet)
 		std::function<void(int /*cbKind*/, int /*state*/, int /*meth*/, void* /*control*/)> inCallback;
 	};
 	static Globals& G() { static Globals g; return g; }
@@ -373,15 +382,18 @@ struct Engine {
 	enum CbKind { CB_FULL, CB_EVENT, CB_GUARD, CB_LIFE, CB_QUERY, CB_ANSWER, CB_PLANRESULT };
 
 	static void full(int id, Meth m, int layer, const void* self, FullControl& c) {
+		NoCount nc;
 		Env& e = *c.context();
 		e.rec(id, m, (uint8_t) layer, c.stateId(), self);
 		if (e.monitoring && G().inCallback) G().inCallback(CB_FULL, id, m, &c);
 		if (layer) return;
 		Globals& g = G();
+		if (g.flood) { if (m == M_UPDATE) issue(c, e, id, T_CHANGE, id); return; }
 		const int alt = e.choose(id, m, 0, (int) g.menuFull.size(), g.redFull, false, N);
 		performFull(c, e, id, g.menuFull[alt]);
 	}
 	static void event(int id, Meth m, int layer, const void* self, const Ev&, EventControl& c) {
+		NoCount nc;
 		Env& e = *c.context();
 		e.rec(id, m, (uint8_t) layer, c.stateId(), self);
 		if (e.monitoring && G().inCallback) G().inCallback(CB_EVENT, id, m, &c);
@@ -393,6 +405,7 @@ struct Engine {
 		else performFull(c, e, id, a);
 	}
 	static void guard(int id, Meth m, int layer, const void* self, GuardControl& c) {
+		NoCount nc;
 		Env& e = *c.context();
 		e.rec(id, m, (uint8_t) layer, c.stateId(), self, (int) c.pendingTransitions().count(), c._cancelled ? 1 : 0, (int) c.currentTransitions().count());
 		if (e.monitoring && G().inCallback) G().inCallback(CB_GUARD, id, m, &c);
@@ -409,6 +422,7 @@ struct Engine {
 			issue(c, e, id, a.a, a.b);
 	}
 	static void life(int id, Meth m, int layer, const void* self, PlanControl& c) {
+		NoCount nc;
 		Env& e = *c.context();
 		e.rec(id, m, (uint8_t) layer, c.stateId(), self);
 		if (e.monitoring && G().inCallback) G().inCallback(CB_LIFE, id, m, &c);
@@ -422,6 +436,7 @@ struct Engine {
 #endif
 	}
 	static void query(int id, Meth m, int layer, const void* self, Qu& q, ConstControl& c) {
+		NoCount nc;
 		Env& e = *const_cast<Env*>(c.context());
 		e.rec(id, m, (uint8_t) layer, c.stateId(), self);
 		++q.visited;
@@ -433,6 +448,7 @@ struct Engine {
 		}
 	}
 	static hfsm2::Prong select(int id, const void* self, const Control& c) {
+		NoCount nc;
 		Env& e = *const_cast<Env*>(c.context());
 		const int w = D(id).width;
 		const int alt = (e.classes & CLS_SELECT) ? e.choose(id, M_SELECT, 0, w, w, true, N) : 0;
@@ -443,12 +459,14 @@ struct Engine {
 	static constexpr int RANK_MENU[3] = {0, 1, -1};
 	static constexpr float UTIL_MENU[4] = {1.0f, 0.5f, 2.0f, 3.0f};
 	static typename Args::Rank rank(int id, const void* self, const Control& c) {
+		NoCount nc;
 		Env& e = *const_cast<Env*>(c.context());
 		const int alt = (e.classes & CLS_RANK) ? e.choose(id, M_RANK, 0, 3, 3, true, N) : 0;
 		e.rec(id, M_RANK, 0, c.stateId(), self, alt);
 		return (typename Args::Rank) RANK_MENU[alt];
 	}
 	static typename Args::Utility utility(int id, const void* self, const Control& c) {
+		NoCount nc;
 		Env& e = *const_cast<Env*>(c.context());
 		const int alt = (e.classes & CLS_UTIL) ? e.choose(id, M_UTILITY, 0, 4, 4, true, N) : 0;
 		e.rec(id, M_UTILITY, 0, c.stateId(), self, alt);
@@ -457,6 +475,7 @@ struct Engine {
 #endif
 	// returns true when the default behaviour (propagate to the enclosing region) should run
 	static bool planResult(int id, Meth m, const void* self, FullControl& c) {
+		NoCount nc;
 		Env& e = *c.context();
 		e.rec(id, m, 0, c.stateId(), self);
 		if (e.monitoring && G().inCallback) G().inCallback(CB_PLANRESULT, id, m, &c);
@@ -475,17 +494,17 @@ struct Engine {
 	struct RecLogger : FSM::Logger {
 		std::vector<LogEv> log;
 		using Context = typename FSM::Logger::Context;
-		void recordMethod(const Context& ctx, const hfsm2::StateID origin, const hfsm2::Method method) override { log.push_back(LogEv{L_METHOD, origin, (int) method, 0, 0, ctx->trace.size()}); }
-		void recordTransition(const Context& ctx, const hfsm2::StateID origin, const hfsm2::TransitionType t, const hfsm2::StateID target) override { log.push_back(LogEv{L_TRANSITION, origin, (int) t, target, 0, ctx->trace.size()}); }
+		void recordMethod(const Context& ctx, const hfsm2::StateID origin, const hfsm2::Method method) override { NoCount nc; log.push_back(LogEv{L_METHOD, origin, (int) method, 0, 0, ctx->trace.size()}); }
+		void recordTransition(const Context& ctx, const hfsm2::StateID origin, const hfsm2::TransitionType t, const hfsm2::StateID target) override { NoCount nc; log.push_back(LogEv{L_TRANSITION, origin, (int) t, target, 0, ctx->trace.size()}); }
 #if VT_PLANS
-		void recordTaskStatus(const Context& ctx, const hfsm2::StateID region, const hfsm2::StateID origin, const hfsm2::StatusEvent ev) override { log.push_back(LogEv{L_TASK_STATUS, region, origin, (int) ev, 0, ctx->trace.size()}); }
-		void recordPlanStatus(const Context& ctx, const hfsm2::StateID region, const hfsm2::StatusEvent ev) override { log.push_back(LogEv{L_PLAN_STATUS, region, (int) ev, 0, 0, ctx->trace.size()}); }
+		void recordTaskStatus(const Context& ctx, const hfsm2::StateID region, const hfsm2::StateID origin, const hfsm2::StatusEvent ev) override { NoCount nc; log.push_back(LogEv{L_TASK_STATUS, region, origin, (int) ev, 0, ctx->trace.size()}); }
+		void recordPlanStatus(const Context& ctx, const hfsm2::StateID region, const hfsm2::StatusEvent ev) override { NoCount nc; log.push_back(LogEv{L_PLAN_STATUS, region, (int) ev, 0, 0, ctx->trace.size()}); }
 #endif
-		void recordCancelledPending(const Context& ctx, const hfsm2::StateID origin) override { log.push_back(LogEv{L_CANCEL, origin, 0, 0, 0, ctx->trace.size()}); }
-		void recordSelectResolution(const Context& ctx, const hfsm2::StateID head, const hfsm2::Prong prong) override { log.push_back(LogEv{L_SELECT_RES, head, prong, 0, 0, ctx->trace.size()}); }
+		void recordCancelledPending(const Context& ctx, const hfsm2::StateID origin) override { NoCount nc; log.push_back(LogEv{L_CANCEL, origin, 0, 0, 0, ctx->trace.size()}); }
+		void recordSelectResolution(const Context& ctx, const hfsm2::StateID head, const hfsm2::Prong prong) override { NoCount nc; log.push_back(LogEv{L_SELECT_RES, head, prong, 0, 0, ctx->trace.size()}); }
 #if VT_UTILITY
-		void recordUtilityResolution(const Context& ctx, const hfsm2::StateID head, const hfsm2::Prong prong, const typename FSM::Logger::Utilty u) override { log.push_back(LogEv{L_UTILITY_RES, head, prong, 0, (float) u, ctx->trace.size()}); }
-		void recordRandomResolution(const Context& ctx, const hfsm2::StateID head, const hfsm2::Prong prong, const typename FSM::Logger::Utilty u) override { log.push_back(LogEv{L_RANDOM_RES, head, prong, 0, (float) u, ctx->trace.size()}); }
+		void recordUtilityResolution(const Context& ctx, const hfsm2::StateID head, const hfsm2::Prong prong, const typename FSM::Logger::Utilty u) override { NoCount nc; log.push_back(LogEv{L_UTILITY_RES, head, prong, 0, (float) u, ctx->trace.size()}); }
+		void recordRandomResolution(const Context& ctx, const hfsm2::StateID head, const hfsm2::Prong prong, const typename FSM::Logger::Utilty u) override { NoCount nc; log.push_back(LogEv{L_RANDOM_RES, head, prong, 0, (float) u, ctx->trace.size()}); }
 #endif
 	};
 #else
@@ -642,6 +661,7 @@ struct Engine {
 			env.stepTag = stepNo++;
 			env.beginStep(st.script, N);
 			env.rec(-1, E_API, 0, -1, nullptr, op.type);
+			struct Window { Window() { ++allocState().active; } ~Window() { --allocState().active; } } window;
 			switch (op.type) {
 			case OP_ENTER:
 #if VT_MANUAL
@@ -684,9 +704,37 @@ struct Engine {
 			}
 			case OP_PLAN_CLEAR: env.rec(-1, E_PLAN_CLEAR, 0, -1, nullptr, 0, 0, 0, op.arg); fsm->plan((hfsm2::RegionID) op.arg).clear(); break;
 #endif
+			case OP_BURST:
+				for (int i = 0; i < op.n; ++i) {
+					int d = (op.r[0].state + i) % N;
+					if (op.r[0].kind == T_SCHEDULE && d == 0) d = 1;
+					queue(op.r[0].kind, d);
+				}
+				fsm->update();
+				break;
+			case OP_FLOOD_UPDATE: G().flood = true; fsm->update(); G().flood = false; break;
+#if VT_PLANS
+			case OP_PLAN_FLOOD: {
+				auto plan = fsm->plan((hfsm2::RegionID) op.arg);
+				int accepted = 0;
+				for (int i = 0; i < op.n; ++i) if (plan.change((hfsm2::StateID) (1 + i % (N - 1)), (hfsm2::StateID) (1 + (i + 1) % (N - 1)))) ++accepted;
+				env.rec(-1, E_PLAN_APPEND, 0, -1, nullptr, T_CHANGE, op.n, accepted, op.arg * 2 + 1);
+				lastAccepted = accepted;
+				break;
+			}
+#endif
+#if VT_HISTORY
+			case OP_REPLAY_FLOOD: {
+				std::vector<Transition> list;
+				{ NoCount nc; for (int i = 0; i < op.n; ++i) list.push_back(Transition{(hfsm2::StateID) (1 + i % (N - 1)), TType::CHANGE}); }
+				fsm->replayTransitions(&list[0], (hfsm2::Short) list.size());
+				break;
+			}
+#endif
 			default: break;
 			}
 		}
+		int lastAccepted = 0;
 
 		// ---- observation ----------------------------------------------------------------------
 		Snap snap() const {
@@ -827,6 +875,23 @@ struct Engine {
 
 }  // namespace vt
 
+// ---- allocation interposers (only in the allocation-counting build) ------------------------------------------------
+#ifdef VT_COUNT_ALLOCS
+#include <new>
+extern "C" void* __real_malloc(size_t);
+extern "C" void* __real_calloc(size_t, size_t);
+extern "C" void* __real_realloc(void*, size_t);
+extern "C" void* __wrap_malloc(size_t n) { vt::noteAlloc(); return __real_malloc(n); }
+extern "C" void* __wrap_calloc(size_t a, size_t b) { vt::noteAlloc(); return __real_calloc(a, b); }
+extern "C" void* __wrap_realloc(void* p, size_t n) { vt::noteAlloc(); return __real_realloc(p, n); }
+void* operator new(size_t n) { vt::noteAlloc(); void* p = __real_malloc(n ? n : 1); if (!p) abort(); return p; }
+void* operator new[](size_t n) { vt::noteAlloc(); void* p = __real_malloc(n ? n : 1); if (!p) abort(); return p; }
+void operator delete(void* p) noexcept { free(p); }
+void operator delete[](void* p) noexcept { free(p); }
+void operator delete(void* p, size_t) noexcept { free(p); }
+void operator delete[](void* p, size_t) noexcept { free(p); }
+#endif
+
 // ---- sanitizer hooks: reports become recorded outcomes instead of killing the explorer -----------------------------
 namespace vt { inline long& sanErrors() { static long n = 0; return n; } }
 #if defined(__SANITIZE_ADDRESS__)
@@ -837,8 +902,13 @@ namespace vt { inline long& sanErrors() { static long n = 0; return n; } }
 #endif
 #endif
 #ifdef VT_ASAN
-extern "C" void __asan_on_error() { ++vt::sanErrors(); }
+extern "C" void __asan_set_error_report_callback(void (*)(const char*));
 extern "C" void __ubsan_on_report() { ++vt::sanErrors(); }
+namespace vt {
+inline void asanReport(const char*) { ++sanErrors(); }
+struct SanInit { SanInit() { __asan_set_error_report_callback(&asanReport); } };
+static SanInit sanInit;
+}
 #endif
 
 #ifdef HFSM2_VERIF
